@@ -257,6 +257,7 @@ pub fn replay(case: &Value) -> Vec<String> {
     let suffix = match case["universe"].as_str() {
         Some("prefix") => ":prefix-names/target-hash",
         Some("twins") => ":names-differing-by-one-non-letter-bit",
+        Some("long") => ":long-lists",
         _ => "",
     };
     check_case(&headers, &filters).into_iter().map(|(s, _)| format!("{s}{suffix}")).collect()
@@ -364,7 +365,33 @@ pub fn run(tier: Tier) -> i32 {
             }
         }
     });
+    // count thresholds: long header lists (70 / 130 / 300 entries, the looked-at names repeated at several positions) and long
+    // filter sequences (70 / 130 filters cycling through the operations)
+    let long_cases: Vec<(Vec<H>, Vec<F>)> = {
+        let mut v = Vec::new();
+        for n in [70usize, 130, 300] {
+            let mut headers: Vec<H> = (0..n).map(|i| (format!("H{i}"), format!("v{i}"))).collect();
+            for pos in [0, n / 2, n - 1, 64.min(n - 1), 100.min(n - 1)] {
+                headers[pos] = (if pos % 2 == 0 { "X".to_string() } else { "x".to_string() }, format!("x{pos}"));
+            }
+            for fl in all_filter_sequences(1) {
+                v.push((headers.clone(), fl));
+            }
+            let cyc: Vec<F> = (0..n).map(|i| F { action: ACTIONS[i % 5].to_string(), header: ["X", "Y", "H3", "Z"][i % 4].to_string(), value: format!("w{i}"), hash: i % 3 == 0 }).collect();
+            v.push((headers.clone(), cyc.clone()));
+            v.push((vec![("X".to_string(), "a".to_string())], cyc));
+        }
+        v
+    };
+    par_range(ctx.threads, long_cases.len(), |i| {
+        let (headers, filters) = &long_cases[i];
+        ctx.eval(1);
+        for (sig, what) in crate::common::run_case(|| json!({"headers": headers, "filters": filters, "universe": "long"}), || check_case(headers, filters)) {
+            ctx.report(Violation { signature: format!("{sig}:long-lists"), what: what.chars().take(1500).collect(), case: json!({"headers": headers, "filters": filters, "universe": "long"}), weight: (headers.len() + filters.len() * 4) as u64 });
+        }
+    });
     let mut cov = Coverage::new();
+    cov.set("long_lists", json!({"cases": long_cases.len(), "header_list_lengths": [70, 130, 300], "filter_sequence_lengths": [1, 70, 130, 300]}));
     cov.set("bit5_twin_universe", json!({"header_lists": twin_headers.len(), "filter_sequences": twin_seqs.len(), "names": ["X~Y", "X^Y", "x~y"]}));
     cov.set("prefix_universe", json!({"header_lists": plists.len(), "filter_sequences": pseqs.len(), "header_names": PREFIX_HEADER_NAMES, "filter_names": PREFIX_FILTER_NAMES}));
     cov.set("distinct_nontrivial", json!(changed.len()))
